@@ -204,6 +204,8 @@ def run(repo, res, tier):
     sk_bash.matchfn_rule(repo, res, tier)
     sk_bash.candord_rule(repo, res, tier)  # command output inside a word: the same longest-first discipline as for literals
     siblings(repo, res)
+    # values that are prefixes of one another are all offered only if nothing between the matcher and COMPREPLY drops look-alikes (SK-FB F4 reply clause, shared with C01)
+    sk_bash.fb_rule(repo, res, tier, only="F4:reply-offers-every-match")
     res.floor("SORTLEN", res.count("SORTLEN"), 1)
     res.floor("SK-SUB", res.count("SK-SUB"), 6)
     res.floor("SK-MATCHFN", res.count("SK-MATCHFN"), 6)
